@@ -59,6 +59,13 @@ class Spheroid(CenteredScatterer):
         self.rotation = rotation
         self.center = center
 
+        try:
+            if np.any(np.array(self.r) < 0):
+                raise InvalidScatterer(self, "a semi-axis is negative")
+        except TypeError:
+            # semi-axes given as priors are not checked, as for a Sphere
+            pass
+
     @property
     def indicators(self):
         inverserotate = np.linalg.inv(rotation_matrix(*self.rotation))
